@@ -465,6 +465,208 @@ def std_bins_correspondence(ctx, rng, gs, drv, n_cases):
     return bad
 
 
+# ----------------------------------------------------------------------------- call histories with reused caller arrays
+def _snap(o):
+    if isinstance(o, np.ma.MaskedArray):
+        return ("ma", np.array(np.ma.getdata(o), copy=True), np.array(np.ma.getmaskarray(o), copy=True))
+    if isinstance(o, np.ndarray):
+        return ("nd", o.copy(), o.dtype.str)
+    if isinstance(o, (list, tuple)):
+        return ("seq", type(o), [_snap(x) for x in o])
+    return ("val", o)
+
+
+def _same(o, sn):
+    k = sn[0]
+    if k == "ma":
+        return isinstance(o, np.ma.MaskedArray) and C.bit_equal(np.ma.getdata(o), sn[1]) and np.array_equal(np.ma.getmaskarray(o), sn[2])
+    if k == "nd":
+        if not isinstance(o, np.ndarray) or o.dtype.str != sn[2] or o.shape != sn[1].shape:
+            return False
+        return C.bit_equal(o, sn[1]) if o.dtype.kind == "f" else bool(np.array_equal(o, sn[1]))
+    if k == "seq":
+        return isinstance(o, sn[1]) and len(o) == len(sn[2]) and all(_same(a, b) for a, b in zip(o, sn[2]))
+    v = sn[1]
+    return (o is v) or (o == v) or (isinstance(v, float) and isinstance(o, float) and np.isnan(v) and np.isnan(o))
+
+
+def _layout(rng, a, kinds):
+    """the same values as a caller object of another dtype / layout class"""
+    a = np.asarray(a)
+    kind = kinds[int(rng.integers(len(kinds)))]
+    if kind == "f64":                       # passes through np.asarray / np.array(copy=False) unchanged
+        return kind, np.array(a, dtype=np.double, order="C", copy=True)
+    if kind == "view":                      # non-contiguous float64 view of a bigger buffer
+        big = np.zeros(a.shape[:-1] + (2 * a.shape[-1],), dtype=np.double) if a.ndim else np.zeros(2)
+        if a.ndim == 0:
+            return "f64", np.array(a, dtype=np.double, copy=True)
+        big[..., ::2] = a
+        return kind, big[..., ::2]
+    if kind == "fortran" and a.ndim == 2:
+        return kind, np.array(a, dtype=np.double, order="F", copy=True)
+    if kind == "int" and a.size and np.all(np.isfinite(a)) and np.all(a == np.round(a)):
+        return kind, a.astype(np.int64)
+    if kind == "list":
+        return kind, a.tolist()
+    return "f64", np.array(a, dtype=np.double, order="C", copy=True)
+
+
+def history_sequences(ctx, rng, gs, drv, n_cases, thorough):
+    """>= 3 calls of vario_estimate that share the SAME caller objects (pos, field, bin_edges, mask, direction /
+    angles) in every dtype / layout class (float64 arrays that np.asarray hands through unchanged, non-contiguous and
+    Fortran views, integer arrays, lists, masked arrays), over all option cells.  The estimate is a function of the
+    argument VALUES: every call must equal the model's prediction for the original values, a repeated call must
+    reproduce the first one bit for bit (the caller objects found changed are named in the report)."""
+    cells = [dict(latlon=True), dict(latlon=False, structured=True), dict(latlon=False, structured=False), {}]
+    for it in range(n_cases):
+        cfg = gen_cfg(rng, thorough, force=cells[it % len(cells)])
+        if cfg["latlon"] and cfg["edges"] is None and it % 2 == 0:
+            top = np.pi * 0.9 * cfg["geo"]
+            cfg["edges"] = np.concatenate([[0.0], np.sort(rng.uniform(0, top, int(rng.integers(1, 6))))])
+            cfg["stdkw"] = {}
+        if cfg["edges"] is not None and rng.random() < 0.35:
+            # integer-valued edges (natural for km / degree bins): allows an integer caller array
+            e = np.unique(np.round(cfg["edges"] * (1.0 if cfg["edges"][-1] >= 4 else 4.0 / max(cfg["edges"][-1], 1e-9))))
+            if len(e) >= 2:
+                cfg["edges"] = e.astype(float)
+        lay = {}
+        n, nf, dim = cfg["n"], cfg["nf"], cfg["dim"]
+        # ---- caller objects (built once, shared by all calls)
+        if cfg["structured"]:
+            lay["pos"], pos_obj = ("tuple", tuple(np.array(a, dtype=np.double) for a in cfg["axes"])) if rng.random() < 0.6 else ("list", [a.tolist() for a in cfg["axes"]])
+        elif dim == 1 and rng.random() < 0.5:
+            lay["pos"], pos_obj = _layout(rng, cfg["coords"][0], ["f64", "view", "list"])
+        elif rng.random() < 0.5:
+            lay["pos"], pos_obj = "tuple", tuple(np.array(c, dtype=np.double) for c in cfg["coords"])
+        else:
+            lay["pos"], pos_obj = _layout(rng, cfg["coords"], ["f64", "view", "fortran", "list"])
+        fa = cfg["field_arg"]
+        if isinstance(fa, np.ma.MaskedArray):
+            lay["field"], field_obj = "masked", np.ma.array(np.ma.getdata(fa).copy(), mask=np.ma.getmaskarray(fa).copy())
+        else:
+            lay["field"], field_obj = _layout(rng, fa, ["f64", "view", "list"] + (["fortran"] if np.ndim(fa) == 2 else []))
+        kw = dict(estimator=cfg["est"], latlon=cfg["latlon"], no_data=cfg["no_data"], return_counts=True,
+                  mesh_type="structured" if cfg["structured"] else "unstructured")
+        if cfg["latlon"]:
+            kw["geo_scale"] = cfg["geo"]
+        if cfg["edges"] is not None:
+            lay["bin_edges"], kw["bin_edges"] = _layout(rng, cfg["edges"], ["f64", "f64", "view", "int", "list"])
+        if cfg["gmask"] is not None:
+            lay["mask"], kw["mask"] = ("bool", cfg["gmask"].copy()) if rng.random() < 0.6 else ("list", cfg["gmask"].tolist())
+        if cfg["direction"] is not None:
+            lay["direction"], kw["direction"] = _layout(rng, cfg["direction"], ["f64", "view", "fortran", "list"])
+            kw.update(angles_tol=cfg["tol"], bandwidth=cfg["bw"])
+        if cfg["angles"] is not None:
+            if np.ndim(cfg["angles"]) == 0:
+                lay["angles"], kw["angles"] = "scalar", float(cfg["angles"])
+            else:
+                lay["angles"], kw["angles"] = _layout(rng, cfg["angles"], ["f64", "list"])
+            kw.update(angles_tol=cfg["tol"], bandwidth=cfg["bw"])
+        if cfg["samp"] is not None:
+            kw.update(sampling_size=cfg["samp"][0], sampling_seed=cfg["samp"][1])
+        kw.update(cfg["stdkw"])
+        objs = dict(pos=pos_obj, field=field_obj, **{k: kw[k] for k in ("bin_edges", "mask", "direction", "angles") if k in kw})
+        snaps = {k: _snap(v) for k, v in objs.items()}
+        other = "cressie" if cfg["est"] == "matheron" else "matheron"
+        plan = [cfg["est"], other, cfg["est"]] + ([cfg["est"]] if rng.random() < 0.3 else [])
+        key = ("history", cfg["latlon"], cfg["geo"], cfg["structured"], dim, nf, tuple(sorted(lay.items())), cfg["edges"] is None,
+               cfg["direction"] is not None or cfg["angles"] is not None, cfg["gmask"] is not None, bool(cfg["fmask"].any()),
+               not np.isnan(cfg["no_data"]), cfg["samp"] is not None)
+        ctx.count(key if n >= 3 else None, n=len(plan),
+                  hist=dict(entry="history-reused-arrays", latlon=cfg["latlon"], dim=dim, n=n, nf=nf,
+                            bins="default" if cfg["edges"] is None else "given:" + lay["bin_edges"], geo_scale=cfg["geo"],
+                            directional=(cfg["direction"] is not None or cfg["angles"] is not None)))
+        case = dict(cfg_case(cfg), layouts=lay, plan=plan)
+        models = {}
+        results = []
+        failed = False
+        for step, est in enumerate(plan):
+            kw["estimator"] = est
+            try:
+                res = [np.asarray(x) for x in gs.vario_estimate(pos_obj, field_obj, **kw)]
+                err = None
+            except ValueError:
+                res, err = None, "ValueError"
+            except Exception as e:   # noqa
+                ctx.violation("probe: vario_estimate raised", "%s: %s (call %d of a sequence with reused arrays)" % (type(e).__name__, e, step + 1),
+                              case, key="vario_estimate:exception")
+                failed = True
+                break
+            results.append((est, res, err))
+            changed = [k for k, v in objs.items() if not _same(v, snaps[k])]
+            # (1) a repeated call with the same arguments reproduces the earlier one bit for bit
+            prev = next((r for (e0, r, _) in results[:-1] if e0 == est), None)
+            first_err = next((x for (e0, _, x) in results[:-1] if e0 == est), None)
+            if any(e0 == est for (e0, _, _) in results[:-1]):
+                rep_ok = (err == first_err) and (res is None or (prev is not None and all(
+                    a.shape == b.shape and (C.bit_equal(a, b) if a.dtype.kind == "f" else np.array_equal(a, b)) for a, b in zip(prev, res))))
+                if not rep_ok:
+                    ctx.violation("probe: repeated call with the same (reused) argument objects",
+                                  "call %d of vario_estimate differs from the identical earlier call: the estimate depends on the call history"
+                                  " (caller objects changed so far: %s)" % (step + 1, changed or "none"),
+                                  dict(case, call=step + 1, changed=changed, earlier=None if prev is None else [x.tolist() for x in prev],
+                                       now=None if res is None else [x.tolist() for x in res]), key="history:repeat")
+                    failed = True
+                    break
+            # (2) every call equals the model's prediction for the ORIGINAL values
+            if drv is not None:
+                if est not in models:
+                    models[est] = model_run(drv, dict(cfg, est=est))
+                m = models[est]
+                if ("error" in m) != bool(err):
+                    ctx.violation("probe: call sequence vs model", "call %d: exception kind differs from the model (%s vs %s)" % (step + 1, m.get("error"), err),
+                                  dict(case, call=step + 1), key="history:model")
+                    failed = True
+                    break
+                if not err and m.get("gamma") is not None:
+                    near = near_threshold(m["pos"], m["edges"], cfg["latlon"], m.get("dirs"), cfg["tol"], -1.0 if cfg["bw"] is None else cfg["bw"]) or (
+                        m.get("dirs") is not None and sep_near(m["dirs"], cfg["tol"]))
+                    loose = cfg["edges"] is None and "max_dist" not in cfg["stdkw"]
+                    ok = rel_close(m["centers"], res[0], rtol=1e-9 if loose else 1e-15)
+                    if ok and not near:
+                        ok = np.shape(m["counts"]) == res[2].shape and bool(np.all(np.asarray(m["counts"]) == res[2])) and rel_close(m["gamma"], res[1], atol=1e-300)
+                    elif ok:
+                        ok = np.shape(m["gamma"]) == res[1].shape
+                    if not ok:
+                        ctx.violation("probe: call sequence vs model for the original values",
+                                      "call %d of vario_estimate with reused caller objects differs from the model's estimate for the original "
+                                      "values (caller objects changed so far: %s)" % (step + 1, changed or "none"),
+                                      dict(case, call=step + 1, changed=changed, model=[np.asarray(m[k]).tolist() for k in ("centers", "gamma", "counts")],
+                                           got=[x.tolist() for x in res]), key="history:model")
+                        failed = True
+                        break
+            # (a caller object that was changed without any effect on the results is C20's subject, not reported here;
+            #  the list of changed objects is part of every result violation above)
+        if failed:
+            continue
+    # ---- the same for vario_estimate_axis (masked / NaN field reused) and standard_bins (pos reused)
+    for it in range(max(4, n_cases // 8)):
+        dim = int(rng.integers(1, 4))
+        shape = tuple(int(x) for x in rng.integers(3, 6, size=dim))
+        fld = rng.normal(size=shape)
+        fld[rng.random(size=shape) < 0.15] = np.nan
+        obj = np.ma.array(fld.copy(), mask=rng.random(size=shape) < 0.2) if rng.random() < 0.5 else fld.copy()
+        sn = _snap(obj)
+        ax = int(rng.integers(dim))
+        ctx.count(("history-axis", shape, ax, isinstance(obj, np.ma.MaskedArray)), n=3, hist=dict(entry="history-reused-arrays", dim=dim, n=int(np.prod(shape))))
+        outs = []
+        for est in ("matheron", "cressie", "matheron"):
+            outs.append(np.asarray(gs.vario_estimate_axis(obj, direction=ax, estimator=est)))
+        if not C.bit_equal(outs[0], outs[2]) or not _same(obj, sn):
+            ctx.violation("probe: repeated vario_estimate_axis with the same field object", "third call differs from the first / field object changed",
+                          dict(shape=list(shape), axis=ax, field=arr_desc(fld), first=outs[0].tolist(), third=outs[2].tolist()), key="history:axis")
+        latlon = rng.random() < 0.5
+        pdim = 2 if latlon else dim
+        pts = np.vstack([rng.uniform(-80, 80, 9), rng.uniform(-170, 170, 9)]) if latlon else rng.normal(size=(pdim, 9))
+        geo = float(rng.choice([1.0, DEG, KM, 3.7])) if latlon else 1.0
+        sp = _snap(pts)
+        b = [np.asarray(gs.variogram.standard_bins(pts, pdim, latlon, geo_scale=geo)) for _ in range(3)]
+        ctx.count(("history-standard_bins", latlon, pdim, geo), n=3, hist=dict(entry="history-reused-arrays", dim=pdim, n=9))
+        if not (C.bit_equal(b[0], b[1]) and C.bit_equal(b[0], b[2]) and _same(pts, sp)):
+            ctx.violation("probe: repeated standard_bins with the same pos object", "later call differs from the first / pos changed",
+                          dict(latlon=latlon, geo_scale=geo, pos=arr_desc(sp[1]), calls=[x.tolist() for x in b]), key="history:standard_bins")
+
+
 # ----------------------------------------------------------------------------- probes (metamorphic, real vario_estimate)
 class Probe:
     def __init__(self, ctx, gs):
@@ -923,6 +1125,7 @@ def run(ctx):
         if drv is not None:
             bad = correspondence(ctx, rng, gs, drv, 40000 if thorough else 4000, thorough)
             bad += std_bins_correspondence(ctx, rng, gs, drv, 3000 if thorough else 400)
+        history_sequences(ctx, rng, gs, drv, 6000 if thorough else 800, thorough)
         t2 = time.time()
         probes(ctx, rng, gs, 400 if thorough else 40, thorough)
         axis_probes(ctx, rng, gs, 400 if thorough else 40)
